@@ -104,6 +104,8 @@ macro_rules! digest { ($m:ident) => {{
     d!(format!("{}", $m::Ptr(&7)).len() > 2); d!(format!("{:?} {}", $m::Fmt1(1.5), $m::Fmt1(1.5)));
     d!(format!("{:?} {:#?} {}", $m::Gen { a: 1u8, b: 2, c: 255 }, $m::Gen { a: 1u8, b: 2, c: 255 }, $m::Gen { a: 1u8, b: 2, c: 255 }));
     d!(format!("{:?} {:?} {:?} {} {} {}", $m::FmtEn::A(1u8), $m::FmtEn::<u8>::B { x: 2 }, $m::FmtEn::<u8>::C, $m::FmtEn::A(1u8), $m::FmtEn::<u8>::B { x: 2 }, $m::FmtEn::<u8>::C));
+    d!(format!("{} {} {} {} {}", $m::Wrapped::A(1u8), $m::Wrapped::<u8>::B(2), $m::Wrapped::<u8>::C { x: 3 }, $m::Wrapped::<u8>::U, $m::Wrapped::<u8>::Plain));
+    d!(format!("{:x} {:x}", $m::WrappedHex::A(255), $m::WrappedHex::B(1, 300)));
     d!(format!("{:?} {:#?} {:?} {:?} {:#?} {:?}", $m::DbgTuple(1, 2, 3), $m::DbgTuple(1, 2, 3), $m::DbgUnit, $m::DbgEn::A(1, 2), $m::DbgEn::B { x: 1, y: 2 }, $m::DbgEn::C));
     d!($m::Outer { source: $m::Inner }.source().map(|e| e.to_string())); d!($m::Outer2($m::Inner, 1).source().is_some()); d!($m::Inner.source().is_none());
     d!($m::GenErr { source: $m::Inner }.source().is_some());
@@ -206,9 +208,16 @@ def hostile_compile(res, tier):
                 if dg.get("level") != "error":
                     continue
                 spans = dg.get("spans") or []
-                line = next((sp["line_start"] for sp in spans if sp.get("is_primary")), None)
-                if line is None:
+                prim = next((sp for sp in spans if sp.get("is_primary")), None)
+                if prim is None:
                     continue
+                line = prim["line_start"]
+                exp = prim.get("expansion")     # an error inside a macro body: attribute it to the outermost call site
+                while exp:
+                    call = exp.get("span") or {}
+                    if call.get("line_start"):
+                        line = call["line_start"]
+                    exp = call.get("expansion")
                 mod, item = item_at(lines, line)
                 if mod in (None, "plain"):
                     continue
